@@ -17,7 +17,7 @@ Definition not_origin (n : node) : Prop := node_x n <> 0 \/ node_y n <> 0.
 
 Lemma lookup_node_in : forall nodes id n, lookup_node nodes id = Some n -> In n nodes.
 Proof.
-  intros nodes id n H. unfold lookup_node in H. apply find_some in H.
+  intros nodes id n H. unfold lookup_node in H. rewrite <- rev_alt in H. apply find_some in H.
   destruct H as [H _]. apply in_rev in H. exact H.
 Qed.
 
